@@ -40,9 +40,10 @@ class Lock:
         self.f.close()
 
 
-def run(cmd, cwd=None, timeout=1800, env=None):
+def run(cmd, cwd=None, timeout=1800, env=None, stderr_file=None):
     try:
-        p = subprocess.run(cmd, cwd=cwd, env=env or ENV, stdout=subprocess.PIPE, stderr=subprocess.STDOUT, timeout=timeout)
+        errf = open(stderr_file, "w") if stderr_file else subprocess.STDOUT
+        p = subprocess.run(cmd, cwd=cwd, env=env or ENV, stdout=subprocess.PIPE, stderr=errf, timeout=timeout)
         return p.returncode, p.stdout.decode("utf-8", "replace")
     except subprocess.TimeoutExpired as e:
         return 124, (e.stdout or b"").decode("utf-8", "replace") + "\n[timeout]"
@@ -170,8 +171,12 @@ def run_corr(prop, stream, seed, n, wd, extra=None, debug=False):
         shutil.rmtree(wd)
     os.makedirs(wd)
     cmd = [TSGV_DEBUG if debug else TSGV, "gen", stream, "--seed", str(seed), "--n", str(n), "--shards", "16", "--out", wd] + (extra or [])
-    rc, out = run(cmd, cwd=wd, timeout=1500)
+    rc, out = run(cmd, cwd=wd, timeout=1500, stderr_file=os.path.join(wd, "gen.stderr"))
     if rc != 0:
+        try:
+            out += open(os.path.join(wd, "gen.stderr")).read()[-1500:]
+        except Exception:
+            pass
         return {"error": "harness gen failed rc=%d: %s" % (rc, out[-1500:]), "cases": [], "verdicts": {}, "errors": []}
     meta = json.load(open(os.path.join(wd, "meta.json")))
     verdicts, errors = eval_cases(wd)
@@ -185,7 +190,7 @@ def replay_case(prop, stream, case_replay, wd):
     os.makedirs(wd)
     rp = os.path.join(wd, "in.json")
     json.dump({"case": case_replay}, open(rp, "w"))
-    rc, out = run([TSGV, "replay", stream, "--file", rp, "--out", wd], cwd=wd, timeout=300)
+    rc, out = run([TSGV, "replay", stream, "--file", rp, "--out", wd], cwd=wd, timeout=300, stderr_file=os.path.join(wd, "replay.stderr"))
     if rc != 0:
         return None, None
     meta = json.load(open(os.path.join(wd, "meta.json")))
